@@ -17,6 +17,8 @@ def main():
         import checks_interp as m
     elif pid == "C12":
         import check_c12 as m
+    elif pid == "C17":
+        import check_c17 as m
     else:
         print("no check for", pid)
         sys.exit(2)
